@@ -120,8 +120,12 @@ class Keccak(object):
                 Pb = Pb[r:]
             Pi = P.read(br)
         # pad10*1 (with little-endian convention) :
-        Pb = Pb//Bits(1)//Bits(0,size=r-len(Pb)-2)//Bits(1)
-        yield Pb
+        n = r-len(Pb)-2
+        if n<0: n += r # no room for both padding bits: the pad runs into an extra block
+        Pb = Pb//Bits(1)//Bits(0,size=n)//Bits(1)
+        while len(Pb)>0:
+            yield Pb[:r]
+            Pb = Pb[r:]
 
     # Duplex construction (see "Cryptographic Sponge Functions", http://sponge.noekeon.org)
     def duplex(self,m,bitlen=None,outlen=None):
